@@ -50,14 +50,20 @@ def run(tier):
     x = exe(); t0 = time.time(); dl = core.deadline_s(tier)
     seen, frontier, states, trans, lvl = {"": "initial"}, [""], 1, 0, 0
     keys = {"initial"}
-    complete = True
+    complete = True; partial = None
     while frontier and lvl < depth:
         lvl += 1
         cand = [h + o for h in frontier for o in legal(h)]
-        nb = max(1, min(16, len(cand) // 8 + 1))
-        batches = [cand[i::nb] for i in range(nb)]
-        with ThreadPoolExecutor(nb) as ex:
-            outs = list(ex.map(lambda b: run_batch(x, b), batches))
+        outs = []; cut = None
+        for lo in range(0, len(cand), 16000):          # slices, so that the time limit is honoured inside a level as well
+            if time.time() - t0 > dl * 0.8: cut = lo; break
+            part = cand[lo:lo + 16000]
+            nb = max(1, min(16, len(part) // 8 + 1))
+            batches = [part[i::nb] for i in range(nb)]
+            with ThreadPoolExecutor(nb) as ex:
+                outs += list(ex.map(lambda b: run_batch(x, b), batches))
+        if cut is not None:
+            complete = False; partial = (lvl, cut, len(cand)); cand = cand[:cut]
         nxt = []
         for res, err in outs:
             for h, (kind, rest) in res.items():
@@ -78,11 +84,13 @@ def run(tier):
         if missing:
             rep.internal_errors.append("no result for %d histories, e.g. %s" % (len(missing), sorted(missing)[0]))
         frontier = sorted(nxt)
+        if not complete: break
         if time.time() - t0 > dl * 0.8 and frontier and lvl < depth:
             complete = False; break
     rep.states, rep.transitions, rep.traces = states, trans, trans
     rep.add_level("bfs-depth%d" % lvl, trans, trans, complete, time.time() - t0, states,
-                  "well-bracketed pool histories: every history up to depth %d, beyond that only new pool states expanded, up to depth %d" % (full_depth, lvl), depth_reached=lvl, frontier_left=len(frontier))
+                  "well-bracketed pool histories: every history up to depth %d, beyond that only new pool states expanded, up to depth %d%s" % (min(full_depth, lvl if complete else (partial[0] - 1 if partial else lvl)), lvl,
+                  (" (time limit inside depth %d after %d of %d histories: complete to depth %d)" % (partial + (partial[0] - 1,)) if partial else "")), depth_reached=lvl, frontier_left=len(frontier))
     return rep.finish()
 
 def replay(rec):
